@@ -186,6 +186,20 @@ def declare(reg, eng):
                  ensures=[("C09", "effect_count('token.release') == 1")],
                  modifies=["*.available", "*.total", "*.cache", "fs"])
 
+    # ---- C09: a token file of another scheduler that disappears gives its units back to this scheduler's view, and is forgotten
+    #      (otherwise a later file of the same name is never watched)
+    eng.load("CounterToken.on_deleted", "tokens.py")
+    reg.klass("FsEvent", [], {"src_path": "str"})
+    reg.classes["CounterToken"]["fields"].setdefault("watchedpath", "str")
+    NAME = "Path(event.src_path).name"
+    reg.contract("CounterToken.on_deleted", params=["self", "event"], types={"self": "CounterToken", "event": "FsEvent"}, no_replay=True,
+                 requires=["isint(self.available)"],
+                 ensures=[("C09", f"implies(old(haskey(self.cache, {NAME})), not haskey(self.cache, {NAME}) "
+                                  f"and self.available == old(self.available) + old(lookup(self.cache, {NAME}).count))"),
+                          ("C09", f"implies(not old(haskey(self.cache, {NAME})), self.available == old(self.available))"),
+                          ("C09", f"implies(old(haskey(self.cache, {NAME})) and self.available > 0, effect('notify'))")],
+                 modifies=["self.available", "dict(self.cache)"])
+
     # ---- C09: the watcher of a foreign holding gives the tokens back when the recorded job process is gone
     eng.load("TokenFile.watch.run", "tokens.py", qualname="TokenFile.watch.run")
     reg.klass("LocalConnector")
